@@ -21,12 +21,62 @@ func init() {
 	vHarnesses["vH_C05_livempd_nr_testpic2s"] = vH_C05_livempd_nr_testpic2s
 	vHarnesses["vH_C05_livempd_number_testpic2s"] = vH_C05_livempd_number_testpic2s
 	vHarnesses["vH_C05_livempd_time_alt"] = vH_C05_livempd_time_alt
+	vHarnesses["vH_C05_livempd_time_subs_patch"] = vH_C05_livempd_time_subs_patch
+	vHarnesses["vH_C05_livempd_nr_subs_patch"] = vH_C05_livempd_nr_subs_patch
+	vHarnesses["vH_C05_livempd_number_subs"] = vH_C05_livempd_number_subs
+	vHarnesses["vH_C05_livempd_time_lowlatency"] = vH_C05_livempd_time_lowlatency
+	vHarnesses["vH_C05_livempd_number_lowlatency"] = vH_C05_livempd_number_lowlatency
+	vHarnesses["vH_C05_livempd_time_lowlatency_any"] = vH_C05_livempd_time_lowlatency_any
+	vHarnesses["vH_C05_livempd_time_thumbs"] = vH_C05_livempd_time_thumbs
+	vHarnesses["vH_C05_livempd_time_imsc1"] = vH_C05_livempd_time_imsc1
+	vHarnesses["vH_C05_livempd_nr_testpic8s"] = vH_C05_livempd_nr_testpic8s
+	vHarnesses["vH_C05_livempd_time_bbb"] = vH_C05_livempd_time_bbb
 }
 
-func vH_C05_livempd_time_testpic2s()   { vLiveMPD(vAsset_testpic_2s(), "Manifest.mpd", 1, 5) }
-func vH_C05_livempd_nr_testpic2s()     { vLiveMPD(vAsset_testpic_2s(), "Manifest.mpd", 2, 5) }
-func vH_C05_livempd_number_testpic2s() { vLiveMPD(vAsset_testpic_2s(), "Manifest.mpd", 0, 5) }
-func vH_C05_livempd_time_alt()         { vLiveMPD(vAsset_testpic_alt_seg_dur_stl(), "Manifest.mpd", 1, 9) }
+func vH_C05_livempd_time_testpic2s()   { vLiveMPD(vAsset_testpic_2s(), "Manifest.mpd", 1, 5, 0) }
+func vH_C05_livempd_nr_testpic2s()     { vLiveMPD(vAsset_testpic_2s(), "Manifest.mpd", 2, 5, 0) }
+func vH_C05_livempd_number_testpic2s() { vLiveMPD(vAsset_testpic_2s(), "Manifest.mpd", 0, 5, 0) }
+func vH_C05_livempd_time_alt()         { vLiveMPD(vAsset_testpic_alt_seg_dur_stl(), "Manifest.mpd", 1, 9, 0) }
+
+// generated subtitles (stpp + wvtt) and patch location
+func vH_C05_livempd_time_subs_patch() {
+	vLiveMPD(vAsset_testpic_2s(), "Manifest.mpd", 1, 5, vOptSubs|vOptPatch)
+}
+func vH_C05_livempd_nr_subs_patch() {
+	vLiveMPD(vAsset_testpic_2s(), "Manifest.mpd", 2, 5, vOptSubs|vOptPatch)
+}
+func vH_C05_livempd_number_subs() { vLiveMPD(vAsset_testpic_2s(), "Manifest.mpd", 0, 5, vOptSubs) }
+
+// low-latency: fractional availabilityTimeOffset, chunked (availabilityTimeComplete=false)
+func vH_C05_livempd_time_lowlatency() {
+	vLiveMPD(vAsset_testpic_2s(), "Manifest.mpd", 1, 5, vOptLL|vOptLLTable)
+}
+func vH_C05_livempd_number_lowlatency() {
+	vLiveMPD(vAsset_testpic_2s(), "Manifest.mpd", 0, 5, vOptLL|vOptLLTable)
+}
+func vH_C05_livempd_time_lowlatency_any() {
+	vLiveMPD(vAsset_testpic_2s(), "Manifest.mpd", 1, 3, vOptLL)
+}
+
+// other bundled MPDs: thumbnails (image AdaptationSet), imsc1 text, 8 s segments with sidx
+func vH_C05_livempd_time_thumbs()  { vLiveMPD(vAsset_testpic_2s(), "Manifest_thumbs.mpd", 1, 5, 0) }
+func vH_C05_livempd_time_imsc1()   { vLiveMPD(vAsset_testpic_2s(), "Manifest_imsc1.mpd", 1, 5, 0) }
+func vH_C05_livempd_nr_testpic8s() { vLiveMPD(vAsset_testpic_8s(), "Manifest.mpd", 2, 17, 0) }
+func vH_C05_livempd_time_bbb()     { vLiveMPD(vAsset_bbb_hevc_ac3_8s(), "manifest.mpd", 1, 17, 0) }
+
+const (
+	vOptSubs  = 1
+	vOptPatch = 2
+	vOptLL    = 4
+	// availabilityTimeOffset from a table of concrete values instead of any millisecond value
+	vOptLLTable = 8
+)
+
+var vAtoTable = [6]int{1, 250, 500, 1000, 1500, 1999}
+
+func vStubQueryEscape(s string) string { return s }
+
+func vStubPatchPublishMS(loc string) int { return vDecIntIn("dt", loc) }
 
 func vStubGetVodMPD(a *asset, mpdName string) (*m.MPD, error) {
 	mpd := vVodMPD(a.AssetPath + "/" + mpdName)
@@ -55,7 +105,7 @@ func vSameS(x, y []*m.S) bool {
 }
 
 // mode: 0 = SegmentTemplate $Number$, 1 = SegmentTimeline $Time$, 2 = SegmentTimeline $Number$
-func vLiveMPD(a *asset, mpdName string, mode, maxTsbd int) {
+func vLiveMPD(a *asset, mpdName string, mode, maxTsbd, opt int) {
 	startNr := vInt("startNr", 0, 1<<20)
 	startS := vInt("startS", 0, 1<<31)
 	tsbd := vInt("tsbd", 0, maxTsbd)
@@ -67,6 +117,25 @@ func vLiveMPD(a *asset, mpdName string, mode, maxTsbd int) {
 		cfg.SegTimelineFlag = true
 	case 2:
 		cfg.SegTimelineNrFlag = true
+	}
+	atoMS := 0
+	if opt&vOptSubs != 0 {
+		cfg.TimeSubsStpp = []string{"en"}
+		cfg.TimeSubsWvtt = []string{"sv"}
+	}
+	if opt&vOptPatch != 0 {
+		cfg.PatchTTL = 60
+		cfg.URLParts = []string{"", "livesim2", "patch_60", "testpic_2s", "Manifest.mpd"}
+	}
+	if opt&vOptLL != 0 {
+		if opt&vOptLLTable != 0 {
+			atoMS = vAtoTable[vConc(vInt("atoIdx", 0, len(vAtoTable)-1))]
+		} else {
+			atoMS = vInt("atoMS", 1, a.SegmentDurMS-1)
+		}
+		cfg.AvailabilityTimeOffsetS = float64(atoMS) / 1000.0
+		cfg.AvailabilityTimeCompleteFlag = false
+		cfg.LatencyTargetMS = Ptr(3500)
 	}
 	hasStop := vBool("hasStop")
 	stopS := 0
@@ -88,7 +157,7 @@ func vLiveMPD(a *asset, mpdName string, mode, maxTsbd int) {
 	vAssert("C05.livempd.type-set", mpd.Type != nil)
 	if afterStop {
 		vAssert("C05.livempd.static-after-stop", *mpd.Type == "static")
-		vAssert("C05.livempd.static-duration", mpd.MediaPresentationDuration != nil && *mpd.MediaPresentationDuration == *m.Seconds2DurPtr(stopS-startS))
+		vAssert("C05.livempd.static-duration", mpd.MediaPresentationDuration != nil && *mpd.MediaPresentationDuration == *m.Seconds2DurPtr(stopS - startS))
 		vAssert("C05.livempd.static-no-live-attributes", mpd.TimeShiftBufferDepth == nil && mpd.MinimumUpdatePeriod == nil)
 	} else {
 		vAssert("C05.livempd.dynamic-before-stop", *mpd.Type == "dynamic")
@@ -116,7 +185,18 @@ func vLiveMPD(a *asset, mpdName string, mode, maxTsbd int) {
 	if videoID == "" {
 		return
 	}
-	refSE := a.generateTimelineEntries(videoID, wt, 0)
+	// the float product 1000*ato may come out one below the configured milliseconds
+	atoEff := atoMS
+	if atoMS > 0 {
+		for _, as := range p.AdaptationSets {
+			if as.ContentType == "video" && as.SegmentTemplate != nil && as.SegmentTemplate.SegmentTimeline != nil &&
+				!vSameS(as.SegmentTemplate.SegmentTimeline.S, a.generateTimelineEntries(videoID, wt, atoMS).entries) {
+				atoEff = atoMS - 1
+			}
+		}
+	}
+	refSE := a.generateTimelineEntries(videoID, wt, atoEff)
+	nrSubs := 0
 	for _, as := range p.AdaptationSets {
 		st := as.SegmentTemplate
 		vAssert("C05.livempd.template", st != nil)
@@ -126,6 +206,44 @@ func vLiveMPD(a *asset, mpdName string, mode, maxTsbd int) {
 		vAssert("C05.livempd.no-endNumber", st.EndNumber == nil)
 		repID := as.Representations[0].Id
 		rep := a.Reps[repID]
+		if opt&vOptLL != 0 && (as.ContentType == "video" || as.ContentType == "audio") {
+			vAssert("C05.livempd.ll.availabilityTimeOffset", float64(st.AvailabilityTimeOffset) == cfg.AvailabilityTimeOffsetS)
+			vAssert("C05.livempd.ll.availabilityTimeComplete-false", st.AvailabilityTimeComplete != nil && !*st.AvailabilityTimeComplete)
+			vAssert("C05.livempd.ll.producer-reference-time", len(as.ProducerReferenceTimes) == 1)
+		}
+		if rep == nil {
+			// generated subtitles: the video template/timeline at timescale 1000
+			nrSubs++
+			vAssert("C05.livempd.subs.expected", opt&vOptSubs != 0 && as.ContentType == "text")
+			vAssert("C05.livempd.subs.timescale", st.Timescale != nil && *st.Timescale == 1000)
+			var vst *m.SegmentTemplateType
+			for _, v := range p.AdaptationSets {
+				if v.ContentType == "video" {
+					vst = v.SegmentTemplate
+				}
+			}
+			vAssert("C05.livempd.subs.same-startNumber", (st.StartNumber == nil) == (vst.StartNumber == nil) && (st.StartNumber == nil || *st.StartNumber == *vst.StartNumber))
+			if mode == 0 {
+				vAssert("C05.livempd.subs.duration", st.Duration != nil && vst.Duration != nil && int(*st.Duration)*int(vst.GetTimescale()) == int(*vst.Duration)*1000)
+				continue
+			}
+			vAssert("C05.livempd.subs.timeline-present", st.SegmentTimeline != nil && vst.SegmentTimeline != nil)
+			if st.SegmentTimeline == nil || vst.SegmentTimeline == nil {
+				continue
+			}
+			ss, vs := st.SegmentTimeline.S, vst.SegmentTimeline.S
+			vts := int(*vst.Timescale)
+			ok := len(ss) == len(vs)
+			for i := 0; ok && i < len(ss); i++ {
+				if ss[i].R != vs[i].R || int(ss[i].D)*vts != int(vs[i].D)*1000 || (ss[i].T == nil) != (vs[i].T == nil) {
+					ok = false
+				} else if ss[i].T != nil && int(*ss[i].T)*vts != int(*vs[i].T)*1000 {
+					ok = false
+				}
+			}
+			vAssert("C05.livempd.subs.timeline-is-video-timeline-in-ms", ok)
+			continue
+		}
 		if mode == 0 || as.ContentType == "image" {
 			vAssert("C05.livempd.number.startNumber", st.StartNumber != nil && int(*st.StartNumber) == startNr)
 			vAssert("C05.livempd.number.no-timeline", st.SegmentTimeline == nil)
@@ -145,7 +263,7 @@ func vLiveMPD(a *asset, mpdName string, mode, maxTsbd int) {
 		case "audio":
 			se = a.generateTimelineEntriesFromRef(refSE, repID)
 		default:
-			se = a.generateTimelineEntries(repID, wt, 0)
+			se = a.generateTimelineEntries(repID, wt, atoEff)
 		}
 		vAssert("C05.livempd.timescale", st.Timescale != nil && int(*st.Timescale) == rep.MediaTimescale)
 		vAssert("C05.livempd.timeline-present", st.SegmentTimeline != nil)
@@ -159,6 +277,28 @@ func vLiveMPD(a *asset, mpdName string, mode, maxTsbd int) {
 		} else if se.startNr >= 0 {
 			vAssert("C05.livempd.nr.startNumber", st.StartNumber != nil && int(*st.StartNumber) == se.startNr+startNr)
 		}
+	}
+	if opt&vOptSubs != 0 {
+		vAssert("C05.livempd.subs.two-adaptation-sets", nrSubs == 2)
+	} else {
+		vAssert("C05.livempd.subs.none-without-parameter", nrSubs == 0)
+	}
+	if opt&vOptLL != 0 {
+		vAssert("C05.livempd.ll.service-description", len(mpd.ServiceDescription) == 1)
+	}
+	if opt&vOptPatch != 0 {
+		if afterStop {
+			vAssert("C05.livempd.patch.none-when-static", len(mpd.PatchLocation) == 0)
+		} else {
+			vAssert("C05.livempd.patch.location", len(mpd.PatchLocation) == 1 && mpd.PatchLocation[0].Ttl == 60)
+			if len(mpd.PatchLocation) == 1 {
+				// the advertised patch URL names the publishTime of this very MPD
+				vAssert("C05.livempd.patch.names-this-publishTime", vPatchPublishMS(string(mpd.PatchLocation[0].Value)) == vDateTimeMS(mpd.PublishTime))
+			}
+			vAssert("C05.livempd.patch.mpd-id", mpd.Id != "")
+		}
+	} else {
+		vAssert("C05.livempd.patch.none-without-parameter", len(mpd.PatchLocation) == 0)
 	}
 	// ---- publishTime ----
 	pub := vDateTimeMS(mpd.PublishTime)
